@@ -255,6 +255,28 @@ pub fn run(ctx: &Arc<Ctx>) {
             ctx.machinery_error("no curve point with x = k R^-1 found");
         }
     }
+    // G1 points with a small or "minus small" coordinate: x in {p-1, p-2, 1, 2, 0} (x = -1 gives the point (-1, +-2)) and
+    // y in {1, 2, p-1, p-2}: a shortcut for the multipliers 0, +-1, +-2 in the line evaluations fires exactly there
+    {
+        let mut count = 0;
+        for x in [&pr.p - 1u32, &pr.p - 2u32, BigUint::one(), BigUint::from(2u32), BigUint::zero()] {
+            let rhs = (&x * &x * &x + 5u32) % &pr.p;
+            if let Some(y) = refmodels::sm9::sqrt_fp(&rhs) {
+                for (yy, lb) in [(y.clone(), one1.clone()), (&pr.p - &y, lam1.clone())] {
+                    cases.push(Case::PairXY { px: hexbig(&x), py: hexbig(&yy), a: hexbig(&sc[7].1), lb, tag: "x-small-or-minus-small".into() });
+                    count += 1;
+                }
+            }
+        }
+        for y in [BigUint::one(), BigUint::from(2u32), &pr.p - 1u32, &pr.p - 2u32] {
+            let t = (&y * &y + &pr.p - 5u32) % &pr.p;
+            if let Some(x) = refmodels::sm9::cbrt_fp(&t) {
+                cases.push(Case::PairXY { px: hexbig(&x), py: hexbig(&y), a: hexbig(&sc[8].1), lb: one1.clone(), tag: "y-small-or-minus-small".into() });
+                count += 1;
+            }
+        }
+        ctx.cov("explicit_points_with_small_or_minus_small_coordinate", json!(count));
+    }
     // identity arguments: a or b = 0 mod N
     for (an, a) in [("0", BigUint::zero()), ("N", n.clone()), ("3", BigUint::from(3u32))] {
         for (bn, b) in [("0", BigUint::zero()), ("N", n.clone()), ("5", BigUint::from(5u32))] {
